@@ -276,6 +276,10 @@ impl<T: Chunky> Check for IntervalCheck<T> {
             st.nontrivial_states += if len >= 2 { level_states } else { 0 };
             st.frontier_sizes.push(level_states);
             st.depth_completed = len;
+            if found.keys().any(|s| crate::report::is_new_signature(s)) {
+                st.capped = Some(format!("stopped after word length {len}: violations found (shortest counterexamples kept)"));
+                break;
+            }
         }
         if capped_words > 0 {
             st.capped = Some(format!("{} words hit the per-word cap of {} states", capped_words, self.cap_per_word));
